@@ -1,5 +1,14 @@
 package main
 
+// C05: c05probe <opts> <n> (<namehex> <texthex>){n}     (opts as for `process`: c, n)
+//
+// Loads the texts in the given order into one set, runs Process and observes what the `process` dump does not:
+//   print   per module (bare names, sorted): Entry.Print rendered twice (text of the first, whether the second equals it)
+//   byns    per namespace of a loaded module: FindModuleByNamespace asked twice: the FullName found or "ERR: ..."
+//   getmod  for the first two module names: GetModule called twice on a second set holding the same texts, then once
+//           more after flipping IgnoreDeviateNotSupported, next to the answers of fresh sets with either option value
+//           (answer = error list, or "tree:" + hash of the Print rendering)
+//
 // C05: errsort <hex> <hex> ...   (one token per error text, "-" = the empty text, no token = no error)
 //
 // errorSort is unexported; it is reached through (*Entry).GetErrors() on an entry whose Errors field holds
@@ -7,7 +16,12 @@ package main
 // nothing).  Output: "n=<count>" followed by the hex of every returned error text, in the order returned.
 
 import (
+	"bytes"
+	"crypto/sha1"
+	"encoding/json"
 	"errors"
+	"fmt"
+	"sort"
 	"strconv"
 	"strings"
 
@@ -26,5 +40,106 @@ func init() {
 			parts = append(parts, enhex([]byte(x.Error())))
 		}
 		return strings.Join(parts, " ")
+	}
+}
+
+type c05Probe struct {
+	Errors []string                     `json:"errors"`
+	Print  map[string][]string          `json:"print"`
+	ByNS   map[string][]string          `json:"byns"`
+	GetMod map[string]map[string]string `json:"getmod"`
+}
+
+func c05Load(opts string, names, texts []string, flip bool) *yang.Modules {
+	ms := yang.NewModules()
+	ms.ParseOptions.IgnoreSubmoduleCircularDependencies = strings.Contains(opts, "c")
+	ms.ParseOptions.DeviateOptions.IgnoreDeviateNotSupported = strings.Contains(opts, "n") != flip
+	for i := range names {
+		ms.Parse(texts[i], names[i])
+	}
+	return ms
+}
+
+func c05Answer(e *yang.Entry, errs []error) string {
+	if len(errs) > 0 {
+		var ss []string
+		for _, err := range errs {
+			ss = append(ss, err.Error())
+		}
+		return "errors: " + strings.Join(ss, " || ")
+	}
+	if e == nil {
+		return "nil entry, no error"
+	}
+	var b bytes.Buffer
+	e.Print(&b)
+	return fmt.Sprintf("tree: %x", sha1.Sum(b.Bytes()))
+}
+
+func init() {
+	handlers["c05probe"] = func(toks []string) string {
+		opts := toks[0]
+		n, _ := strconv.Atoi(toks[1])
+		names, texts := make([]string, n), make([]string, n)
+		for i := 0; i < n; i++ {
+			names[i], texts[i] = string(unhex(toks[2+2*i])), string(unhex(toks[3+2*i]))
+		}
+		out := &c05Probe{Errors: []string{}, Print: map[string][]string{}, ByNS: map[string][]string{}, GetMod: map[string]map[string]string{}}
+		ms := c05Load(opts, names, texts, false)
+		errs := ms.Process()
+		for _, err := range errs {
+			out.Errors = append(out.Errors, err.Error())
+		}
+		var mods []string
+		for k, m := range ms.Modules {
+			if k == m.Name {
+				mods = append(mods, k)
+			}
+		}
+		sort.Strings(mods)
+		if len(errs) == 0 {
+			for _, k := range mods {
+				e := yang.ToEntry(ms.Modules[k])
+				var b1, b2 bytes.Buffer
+				e.Print(&b1)
+				e.Print(&b2)
+				out.Print[k] = []string{b1.String(), strconv.FormatBool(b1.String() == b2.String())}
+			}
+		}
+		for _, k := range mods {
+			m := ms.Modules[k]
+			if m.Namespace == nil {
+				continue
+			}
+			ns := m.Namespace.Name
+			var ans []string
+			for i := 0; i < 2; i++ {
+				if f, err := ms.FindModuleByNamespace(ns); err != nil {
+					ans = append(ans, "ERR: "+err.Error())
+				} else {
+					ans = append(ans, f.FullName())
+				}
+			}
+			out.ByNS[ns] = ans
+		}
+		for i, k := range mods {
+			if i >= 2 {
+				break
+			}
+			r := map[string]string{}
+			ms2 := c05Load(opts, names, texts, false)
+			r["first"] = c05Answer(ms2.GetModule(k))
+			r["second"] = c05Answer(ms2.GetModule(k))
+			ms2.ParseOptions.DeviateOptions.IgnoreDeviateNotSupported = !ms2.ParseOptions.DeviateOptions.IgnoreDeviateNotSupported
+			r["flipped"] = c05Answer(ms2.GetModule(k))
+			r["fresh"] = c05Answer(c05Load(opts, names, texts, false).GetModule(k))
+			r["fresh_flipped"] = c05Answer(c05Load(opts, names, texts, true).GetModule(k))
+			out.GetMod[k] = r
+		}
+		b, err := json.Marshal(out)
+		if err != nil {
+			return "BROKEN json: " + err.Error()
+		}
+		return string(b)
 	}
 }
